@@ -129,6 +129,31 @@ ADD = {
  "C19": ("idempotent flag accumulation (F1); digits/decimal-point agreement of the float renderer (G1)", " Also: (F1) repeated flag characters keep the flag set; (G1) the `#` point is decided with the digit count that was rendered."),
 }
 
+# round 6 (faulty refactorings): rules added for the changes that were missed
+ADD6 = {
+ "C03": ("branch-condition stacks (if/else, match arms, short-circuit operands) over the syntax tree for the D.digits discharge",
+         " (D.digits) every unwrap on a conversion of the number text sits where no float part was appended."),
+ "C05": ("branch-condition stacks incl. short-circuit operands in lex_string (S2)",
+         " (S2) after the closing quote of a plain literal nothing further is consumed: consuming calls on a quote character require triple_quoted on their path."),
+ "C06": ("conversion inventory of parse_bytes (B2)",
+         " (B2) decoded characters become bytes by `as u8` truncation only (an octal escape above \\377 keeps its low 8 bits)."),
+ "C08": ("interpretation of compare_strict over the 3x3 partition of (tabs, spaces) directions (T1, shared with C04.L2)",
+         " (T1) TabError exactly in the two mixed-direction cells; more tabs and more spaces is accepted."),
+ "C11": ("token-level access inventory of the separator flags handed to p_delim (D1)",
+         " (D1) a `first` flag is read and cleared only together, so no separator is lost after a printed element."),
+ "C12": ("def-use closure (lets, loops, pushes, match bindings, closure parameters) per hand-written fold in source_locator.rs (H1)",
+         " (H1) every field of a node rebuilt by a hand-written fold is derived from the same-named field of the incoming node."),
+ "C13": ("guard analysis of every U+FEFF test in the line index and the linear locator, incl. a guard handed to a helper as a bool argument (B1b); str::lines inventory in the locator sources (T1)",
+         " (B1b, reported as C13.B1) only a leading BOM is discounted, in both locators; (T1) no std `lines()` (which ignores a lone CR) in locator code."),
+ "C19": ("evaluation of the minus-sign condition on -0.0, +/-inf, +/-NaN (S1); one-local rule for the precision-cut bytes (B1); consume_length interpreted for every next character; has_key interpreted on literal / unkeyed / keyed specifiers (K1)",
+         " (S1) as C18.S1 for %-formatting; (B1) bytes are padded by the length that is written; (K1) `%()s` is a keyed specifier."),
+ "C18": ("arm selection of the presentation-type dispatch of format_float/format_int for every FormatType value by pattern evaluation (T3); one-level interpretation of private helper methods in the grouped-padding rule (A3)",
+         " (T3) floats reject d b o x X s c and 'N', ints reject s and 'N', everything else is formatted."),
+}
+for _k, (_t, _c) in ADD6.items():
+    _a = ADD.get(_k, ("", ""))
+    ADD[_k] = ((_a[0] + "; " + _t) if _a[0] else _t, _a[1] + _c)
+
 def main():
     props = [json.loads(l) for l in open(os.path.join(HERE, "properties.jsonl"))]
     checks, na = [], []
@@ -142,7 +167,7 @@ def main():
             tech = tech + "." + COMMON_TECH
             checks.append({
                 "property_id": pid,
-                "quick_cmd": f"bin/check {pid} quick; evaluation of the minus-sign condition on -0.0, +/-inf, +/-NaN (S1); one-local rule for the precision-cut bytes (B1); consume_length interpreted for every next character; has_key interpreted on literal / unkeyed / empty-key / keyed parts (K1)",
+                "quick_cmd": f"bin/check {pid} quick",
                 "thorough_cmd": f"bin/check {pid} thorough",
                 "evidence_file": f"evidence/{pid}.json",
                 "replay_cmd_template": "bin/check --replay {path}",
@@ -173,7 +198,7 @@ def main():
         "not_applicable": na,
         "notes": "Technique family: static analysis only. Every claimed check decides structural necessary conditions of its property (DESIGN.md section 4 and Part II section 9.4, generated from the evidence) from /repo's current sources; none runs the subject. Known findings and the list of repaired defects: known_findings.json. Self-tests (development aids, not registered commands): seeded/ (64 verified breaking changes), selftest/reverts (reverse patches of the 15 fix: commits), selftest/neutral (36 behaviour-preserving refactorings that must stay silent).",
     }
-    json.dump(m, open(os.path.join(HERE, "MANIFEST.json (S1) as C18.S1 for %-formatting; (B1) bytes are padded by the length that is written. (K1) `%()s` is a keyed specifier."), "w"), indent=1)
+    json.dump(m, open(os.path.join(HERE, "MANIFEST.json"), "w"), indent=1)
     print("claimed:", sorted(CLAIMED), "na:", [x["property_id"] for x in na])
 
 if __name__ == "__main__":
